@@ -27,11 +27,15 @@ IMPORTS = ("From TxV Require Import Core.Base Core.Show Model.PegSyntax Model.Pe
            "Open Scope string_scope.")
 DEFS = """
 Definition c22_case (g : grammar) (c : config) (tbl tbl' : list ((nat * nat) * nat)) (fuel : nat)
-           (a ins b : list N) : string :=
+           (a w1 cc w2 b : list N) : string :=
+  let ins := (w1 ++ cc ++ w2)%list in
   show_outcome g (run g c (orc_of tbl) false fuel (a ++ b)%list) ++ " | " ++
   show_outcome g (run g c (orc_of tbl') false fuel (a ++ ins ++ b)%list) ++ " | " ++
   show_bool (ins_wf g c ins) ++
-  show_bool (shift_okb g (a ++ b)%list (orc_of tbl) (a ++ ins ++ b)%list (orc_of tbl') (List.length a) (List.length ins)).
+  show_bool (shift_okb g (a ++ b)%list (orc_of tbl) (a ++ ins ++ b)%list (orc_of tbl') (List.length a) (List.length ins)) ++
+  show_bool (cmt_wf g c) ++
+  show_bool (cmt_ins_okb g c (orc_of tbl') a w1 cc w2) ++
+  show_bool (top_eof g).
 """
 FUEL = 120
 DEFAULT_WS = "\t\n\r "
@@ -89,6 +93,35 @@ def shift_ok(dump, text, table, text2, table2, k, n):
     return True
 
 
+def tiled(dump, text, table):
+    """Mirror of PegGap.covered 0 |text|: the text is a concatenation of characters of the grammar's whitespace
+    sets and of matches of its terminals."""
+    tbl = {(o, p): ln for o, p, ln in table}
+    W = set(dump["ws"])
+    for nd in dump["nodes"]:
+        if nd["ws"] is not None:
+            W |= set(nd["ws"])
+    terms = [nd for nd in dump["nodes"] if nd["kind"] in ("KStr", "KRegex", "KEOF")]
+    reach = [False] * (len(text) + 1)
+    reach[0] = True
+    for p in range(len(text)):
+        if not reach[p]:
+            continue
+        if text[p] in W:
+            reach[p + 1] = True
+        for nd in terms:
+            ln = _tmatch(nd, text, tbl, p)
+            if ln and p + ln <= len(text):
+                reach[p + ln] = True
+    return reach[len(text)]
+
+
+def ctx_constant(dump):
+    """Mirror of PegProofs.ctx_constant (C19's class)."""
+    return dump["comments"] is None and all(nd["ws"] is None and nd["skipws"] is None and not nd["eolterm"]
+                                            and nd["kind"] != "KUnord" for nd in dump["nodes"])
+
+
 def mode_constant(dump):
     return dump["skipws"] and all(nd["ws"] is None and nd["skipws"] is None and not nd["eolterm"] for nd in dump["nodes"])
 
@@ -113,6 +146,10 @@ CORPUS = [
      "rules": {"A": {"skipws": False}, "B": {"skipws": True, "ws": " "}}, "inputs": ["a x  y c", "ax y\nc", "a x\ty c"], "tag": "corpus-two-params"},
     {"grammar": "Model: a=A 'c';\nA[noskipws]: 'a' b=B;\nB[ws=' ', skipws]: 'x' 'y';\n", "opts": {}, "comment": None,
      "rules": {"A": {"skipws": False}, "B": {"skipws": True, "ws": " "}}, "inputs": ["a x  y c", "ax y\nc"], "tag": "corpus-two-params-2"},
+    {"grammar": "Model: ('a' x+=X ';')*[eolterm] 'z';\nX: 'x' ys*=ID[',' eolterm];\n", "opts": {}, "rules": {}, "comment": None,
+     "eol": {"Model": 1, "X": 1}, "inputs": ["a x y, z ; a x ;\nz", "a x y ;\n z", "a x\n; z", "z"], "tag": "corpus-eolterm"},
+    {"grammar": "Model: ('a' X)*[eolterm] 'z';\nX[ws=' ']: 'x';\n", "opts": {}, "rules": {"X": {"ws": " "}}, "comment": None,
+     "eol": {"Model": 1, "X": 0}, "inputs": ["a x z", "a x\nz", "a x a x z"], "tag": "corpus-eolterm-ws-leak"},
     {"grammar": "Model: xs+=X[','] ';' ys*=ID;\nX: 'x' | INT;\nComment: /\\/\\/.*?$/;\n", "opts": {}, "rules": {}, "comment": "line",
      "inputs": ["x, 1 ,x; a b", "x;", "x ,\n1;// c\n a"], "tag": "corpus-plain-comment"},
 ]
@@ -122,11 +159,15 @@ def gen_cases(chk, n, per):
     cases = [dict(c) for c in CORPUS]
     for i in range(n):
         r = chk.rng.split("g%d" % i)
-        style = r.weighted([("plain", 4), ("modes", 4), ("wsonly", 2)])
+        style = r.weighted([("plain", 3), ("modes", 4), ("wsonly", 2), ("plaincmt", 2)])
         feats = {"plain": dict(modifiers=False, eolterm=False, comment=True),
+                 "plaincmt": dict(modifiers=False, eolterm=False, comment=False),
                  "modes": dict(),
                  "wsonly": dict(modifiers=True, eolterm=True, comment=True)}[style]
         g = peggen.gen_grammar(r, feats)
+        if style == "plaincmt":
+            # the class of the Comment-insertion theorem: one-regex Comment rule, no mode change
+            g = {"rules": g["rules"], "comment": r.choice(["line", "hash"])}
         if style == "wsonly":
             # modes that keep skipping on: only ws= modifiers (the class of the theorem beyond the default mode)
             rules = []
@@ -146,8 +187,53 @@ def gen_cases(chk, n, per):
         for k in range(per):
             inputs.append(peggen.gen_input(r.split("i%d" % k), g, opts))
         cases.append({"grammar": peggen.grammar_text(g), "opts": opts, "inputs": sorted(set(inputs)), "tag": style,
-                      "rules": {nm: pr for nm, pr, _ in g["rules"] if pr}, "comment": g["comment"]})
+                      "rules": {nm: pr for nm, pr, _ in g["rules"] if pr}, "comment": g["comment"],
+                      "eol": {nm: eol_count(body) for nm, _, body in g["rules"]}})
     return cases
+
+
+def eol_count(e):
+    """number of eolterm modifiers in a peggen AST expression"""
+    k = e[0]
+    if k in ("seq", "alt"):
+        return sum(eol_count(x) for x in e[1])
+    if k == "rep":
+        return (1 if e[4] else 0) + eol_count(e[2])
+    if k == "pred":
+        return eol_count(e[2])
+    if k == "sup":
+        return eol_count(e[1])
+    if k == "asg":
+        return 1 if e[5] else 0
+    return 0
+
+
+def eol_tie(case, dump):
+    """Oracle (3) for eolterm: per rule, the number of eolterm modifiers in the grammar text equals the number
+    of eolterm repetitions among the parser-model nodes of that rule."""
+    if "eol" not in case:
+        return []
+    names = set(case["eol"])
+    nodes = dump["nodes"]
+    got = {}
+    for i, nd in enumerate(nodes):
+        if not (nd["root"] and nd["rule"] in names):
+            continue
+        seen, todo, cnt = set(), [i], 0
+        while todo:
+            j = todo.pop()
+            if j in seen:
+                continue
+            seen.add(j)
+            n = nodes[j]
+            if j != i and n["root"] and n["rule"] in names:
+                continue
+            if n["eolterm"]:
+                cnt += 1
+            todo += n["kids"] + ([n["sep"]] if n["sep"] is not None else [])
+        got[nd["rule"]] = got.get(nd["rule"], 0) + cnt
+    return ["rule %s has %d eolterm modifier(s) in the grammar but %d eolterm repetition(s) in the parser model" % (nm, case["eol"][nm], c)
+            for nm, c in sorted(got.items()) if c != case["eol"][nm]]
 
 
 def declared_mode(case, chain):
@@ -163,7 +249,7 @@ def declared_mode(case, chain):
     return skip, ws
 
 
-def gap_oracle(case, run):
+def gap_oracle(case, run, dump):
     """Oracle for the second half of the property on one accepted input. Returns list of (what, tags)."""
     bad = []
     text = run["text"]
@@ -183,16 +269,24 @@ def gap_oracle(case, run):
         extra = [c for c in gap_chars if c not in active]
         if extra:
             bad.append(("characters %r outside the declared active set %r (skipws=%s) were skipped before the token at %d (rule chain %s)"
-                        % ("".join(extra), ws, skip, t["pos"], "/".join(t["chain"])), []))
+                        % ("".join(extra), ws, skip, t["pos"], "/".join(t["chain"])),
+                        # Arpeggio's comment_positions cache ignores the mode: a comment end recorded under another
+                        # rule's whitespace set is reused here (known finding, only with comments AND mode changes)
+                        ["mixed_ws_modes"] if in_comment and not mode_constant(dump) else []))
         elif in_comment and not skip:
             bad.append(("a comment was skipped before the token at %d although skipping is switched off there (rule chain %s)"
                         % (t["pos"], "/".join(t["chain"])), ["comment_under_noskipws"]))
         if True:
             a_skip, a_ws = t["skipws"], t["ws"]
-            ok = a_skip == skip and set(a_ws) <= set(ws) and (set(ws) - set(a_ws)) <= set("\n\r")
+            may_strip = "eol" not in case or any(case["eol"].get(nm, 0) for nm in t["chain"])
+            ok = a_skip == skip and set(a_ws) <= set(ws) and (set(ws) - set(a_ws)) <= (set("\n\r") if may_strip else set())
             if not ok:
+                # Arpeggio restores a rule-level ws from the EFFECTIVE set: a rule with a ws modifier used inside an
+                # eolterm repetition leaves the line ends stripped for the rest of the parse (known finding)
+                leak = (a_skip == skip and set(a_ws) <= set(ws) and (set(ws) - set(a_ws)) <= set("\n\r")
+                        and any(nd["eolterm"] for nd in dump["nodes"]) and any(nd["ws"] is not None for nd in dump["nodes"]))
                 bad.append(("the parser's whitespace mode at the token at %d is skipws=%s ws=%r, the grammar declares skipws=%s ws=%r (rule chain %s)"
-                            % (t["pos"], a_skip, a_ws, skip, ws, "/".join(t["chain"])), []))
+                            % (t["pos"], a_skip, a_ws, skip, ws, "/".join(t["chain"])), ["eolterm_ws_leak"] if leak else []))
     return bad
 
 
@@ -227,7 +321,7 @@ def model_equiv_impl(m, t):
 
 def run(chk):
     chk.prove([])
-    n, per, mx = (420, 6, 8) if chk.thorough else (90, 6, 6)
+    n, per, mx = (420, 6, 8) if chk.thorough else (75, 6, 6)
     cases = gen_cases(chk, n, per)
     idx = [list(range(i, len(cases), core.NPROC)) for i in range(core.NPROC)]
     idx = [ix for ix in idx if ix]
@@ -251,9 +345,12 @@ def run(chk):
                 if m.get("timeout") or m.get("unsupported"):
                     continue
                 text, k, ins = run_["text"], m["k"], m["ins"]
-                exprs.append("c22_case g%d c%d %s %s %d %s %s %s" % (
+                w1, cc, w2 = m["parts"]
+                assert w1 + cc + w2 == ins
+                exprs.append("c22_case g%d c%d %s %s %d %s %s %s %s %s" % (
                     ci, ci, pegdump.coq_table(run_["table"]), pegdump.coq_table(m["table"]), FUEL,
-                    pegdump.coq_str(text[:k]), pegdump.coq_str(ins), pegdump.coq_str(text[k:])))
+                    pegdump.coq_str(text[:k]), pegdump.coq_str(w1), pegdump.coq_str(cc), pegdump.coq_str(w2),
+                    pegdump.coq_str(text[k:])))
                 index.append((ci, ri, mi))
                 used = True
         if used:
@@ -272,7 +369,7 @@ def run(chk):
         d = res["dump"]
         chk.stat("grammars: %s" % ("mode-constant" if mode_constant(d) else "with mode changes"))
         ginfo = {"grammar": case["grammar"], "opts": case["opts"], "tag": case.get("tag")}
-        for what in static_tie(case, d):
+        for what in static_tie(case, d) + eol_tie(case, d):
             static_failures.append({"case": ginfo, "what": what, "tags": []})
         for ri, run_ in enumerate(res["runs"]):
             if run_.get("timeout") or run_.get("unsupported"):
@@ -288,7 +385,13 @@ def run(chk):
                 chk.count(json.dumps([case["grammar"], case["opts"], text]), nontrivial=False)
                 continue
             # ---- oracle (2): only the declared active set (and comments) is skipped
-            for what, tags in gap_oracle(case, run_):
+            # ---- oracle (4), the conclusion of C22_accepted_is_tiled on the implementation
+            if d["comments"] is None and not tiled(d, text, run_["table"]):
+                failures.append({"case": dict(ginfo, input=text), "tags": [], "impl": t0,
+                                 "what": "accepted input is not a concatenation of whitespace-set characters and terminal matches"})
+            elif d["comments"] is None:
+                chk.stat("theorem C22_accepted_is_tiled applies (no Comment rule)")
+            for what, tags in gap_oracle(case, run_, d):
                 failures.append({"case": dict(ginfo, input=text), "what": what, "tags": tags, "impl": t0})
             if not run_.get("muts"):
                 chk.count(json.dumps([case["grammar"], case["opts"], text]), nontrivial=True)
@@ -305,6 +408,7 @@ def run(chk):
                 # ---- correspondence
                 mv = mvals.get((ci, ri, mi))
                 wf = sok = None
+                thm_applies = False
                 py_sok = shift_ok(d, text, run_["table"], m["text"], m["table"], k, n_ins)
                 if mv is None:
                     disagreements.append({"case": cinfo, "impl": [t0, t1], "model": None})
@@ -312,6 +416,9 @@ def run(chk):
                     parts = mv.split(" | ")
                     mo, mm_, flags = parts[0], parts[1], parts[2]
                     wf, sok = flags[0] == "T", flags[1] == "T"
+                    cwf, cok = flags[2] == "T", flags[3] == "T"
+                    if flags[4] != "T":
+                        disagreements.append({"case": cinfo, "impl": "textX wraps the root rule in Sequence(rule, EOF)", "model": "top_eof = false"})
                     if not (model_equiv_impl(mo, t0) and model_equiv_impl(mm_, t1)):
                         disagreements.append({"case": cinfo, "impl": [t0, t1], "model": [mo, mm_]})
                     if kind == "ws" and wf != ins_wf(d, ins):
@@ -319,16 +426,31 @@ def run(chk):
                     if sok != py_sok:
                         disagreements.append({"case": cinfo, "impl": "python shift_ok=%s" % py_sok, "model": "Coq shift_okb=%s" % sok})
                     if wf and sok:
+                        thm_applies = True
                         chk.stat("theorem C22_invariant applies (ins_wf and shifted oracle hold)")
                         # the theorem's conclusion, checked on the model outcomes too
                         if not (mo.startswith("P:") and mm_ == shift_tree_str(mo, k, n_ins)):
                             disagreements.append({"case": cinfo, "impl": "theorem conclusion", "model": [mo, mm_]})
+                    elif kind == "comment" and cwf and cok and sok and not (mo.startswith("A:") or mm_.startswith("A:")):
+                        chk.stat("theorem C22_comment_invariant applies (cmt_wf, exact Comment match, shifted oracle)")
+                        if not (mo.startswith("P:") and mm_ == shift_tree_str(mo, k, n_ins)):
+                            disagreements.append({"case": cinfo, "impl": "comment theorem conclusion", "model": [mo, mm_]})
+                        thm_applies = True
+                    elif kind == "comment":
+                        chk.stat("comment insertion outside the theorem: %s" % (
+                            "cmt_wf fails" if not cwf else ("not an exact Comment match" if not cok else "shifted oracle fails")))
                     elif wf:
                         chk.stat("ins_wf holds, shifted oracle fails")
                     else:
                         chk.stat("outside ins_wf")
                 if t1.startswith("P:") and not m1["ok"] and m1["err"] == "syntax" or (t1.startswith("E:") and m1["ok"]):
                     disagreements.append({"case": cinfo, "impl": [t1, m1], "model": "textX-level and Arpeggio-level acceptance differ"})
+                # ---- memoization on (C22_invariant_memo_partial): same statement with the packrat cache
+                if kind == "ws" and thm_applies and ctx_constant(d) and not t0.startswith("X:"):
+                    chk.stat("theorem C22_invariant_memo applies (ctx_constant)")
+                    if m.get("tree_on") != shift_tree_str(run_.get("tree_on", ""), k, n_ins):
+                        failures.append({"case": cinfo, "tags": [], "impl": [run_.get("tree_on"), m.get("tree_on")],
+                                         "what": "with memoization=True the insertion changes the outcome"})
                 # ---- oracle (1): same acceptance, same model, same tree up to the shift
                 bad = None
                 if not t1.startswith("P:"):
@@ -340,7 +462,9 @@ def run(chk):
                 if bad:
                     chk.stat("impl: insertion changes the outcome")
                     tags = []
-                    if kind == "ws":
+                    if thm_applies:
+                        pass
+                    elif kind == "ws":
                         if not ins_wf(d, ins):
                             tags.append("mixed_ws_modes")
                         elif not py_sok and m["at_edge"]:
